@@ -287,6 +287,10 @@ def _known_dlog_task(task):
     return acc
 
 
+def _heavy(t):
+    return {"seq": _sequence_task, "dlog": _known_dlog_task, "rare": _rare_task, "pat": _pattern_task, "ship": _shipped_task}[t[0]](t[1])
+
+
 def _default_path(acc):
     L = T.lib()
     for flavour in ("AB", "SS"):
@@ -364,23 +368,22 @@ def run(tier, seed):
             for flavour in ("AB", "SS"):
                 for xc in core.chunks(xs, 2 if quick else 4):
                     stasks.append((name, pw, flavour, xc, xs, pats, seed))
+    heavy = [("seq", t) for t in [(["ParamsEd25519", "ParamsEd25519'"],), (["Params1024", "Params1024'"],), (["E37", "E37'", "E109"],), (["T23", "T23'", "T29", "T11"],)]]
+    heavy += [("dlog", (n, seed)) for n in reversed(T.SHIPPED)]
     stasks.sort(key=lambda t: -T.get(t[0]).ref.esize)
-    core.pmerge(_shipped_task, stasks, acc)
-    core.pmerge(_known_dlog_task, [(n, seed) for n in T.SHIPPED], acc)
+    C.prepare_patterns(T.SHIPPED, "AS", b"password", 0 if quick else 1)
     ptasks = []
     for name in T.SHIPPED:
         if T.try_get(name)[0] is None:
             continue
-        np_ = {"ParamsEd25519": 6, "Params1024": 6, "Params2048": 10, "Params3072": 16}[name] * (1 if quick else 4)
+        np_ = {"ParamsEd25519": 12, "Params1024": 6, "Params2048": 16, "Params3072": 32}[name] * (1 if quick else 3)
         for flavour in ("AB", "SS"):
             for part in range(np_):
                 ptasks.append((name, flavour, 0 if quick else 1, part, np_))
     ptasks.sort(key=lambda t: -T.get(t[0]).ref.esize)
-    C.prepare_patterns(T.SHIPPED, "AS", b"password", 0 if quick else 1)
-    core.pmerge(_pattern_task, ptasks, acc)
-    core.pmerge(_rare_task, [(n, f) for n in reversed(T.SHIPPED) for f in ("AB", "SS")], acc)
-    core.pmerge(_sequence_task, [(["T23", "T23'", "T29", "T11"],), (["E37", "E37'", "E109"],), (["Params1024", "Params1024'"],),
-                                 (["ParamsEd25519", "ParamsEd25519'"],)], acc)
+    heavy += [("rare", (n, f)) for n in reversed(T.SHIPPED) for f in ("AB", "SS")]
+    heavy += [("pat", t) for t in ptasks] + [("ship", t) for t in stasks]
+    core.pmerge(_heavy, heavy, acc)
     _default_path(acc)
     return acc
 
